@@ -460,6 +460,26 @@ where
             return Ok(self.last_log_id());
         }
 
+        // Entries at or below the purge boundary are committed and covered by the snapshot this node
+        // holds: they can neither conflict with anything nor be re-appended. Without this a catch-up
+        // from the start (prev_log_index 0) looks like a conflict at index 1 to a follower whose prefix is
+        // purged and wipes its whole log.
+        let purged_index = self.last_purged_index.load(Ordering::Acquire);
+        let new_entries: Vec<Entry> =
+            if purged_index > 0 && new_entries.first().is_some_and(|e| e.index <= purged_index) {
+                let kept: Vec<Entry> =
+                    new_entries.into_iter().filter(|e| e.index > purged_index).collect();
+                if kept.is_empty() {
+                    return Ok(Some(LogId {
+                        index: purged_index,
+                        term: self.last_purged_term.load(Ordering::Acquire),
+                    }));
+                }
+                kept
+            } else {
+                new_entries
+            };
+
         let last_current_index = self.last_entry_id();
 
         // Step 1: partition_point — O(log n_batch), zero SkipMap lookups.
